@@ -1,5 +1,7 @@
 """Single source for MANIFEST.json (tools/mkmanifest.py)."""
 ENGINES = [
+    {"name": "sweep-crypto", "path": "vf/props/c09.py", "serves_properties": ["C09"],
+     "kind_free_text": "exhaustive product sweeps (every message length, every IV-default combination, all counter increment sequences) on the real wrappers against pure-Python reference implementations in vf/ref (aes.py, crc.py, kdf.py) self-tested on published vectors"},
     {"name": "envdev+bfs-protocol", "path": "vf/props/c10.py", "serves_properties": ["C10"],
      "kind_free_text": "real McuBoot stack over fakes at the pyserial / libusbsio boundary backed by a reference bootloader model; BFS over operation histories; single-fault enumeration over every position of the device->host stream; virtual clock"},
     {"name": "procsched+crashpoints", "path": "vf/engine/procsched.py", "serves_properties": ["C18"],
@@ -11,9 +13,15 @@ ENGINES = [
     {"name": "sweep", "path": "vf/props/c20.py", "serves_properties": ["C20"],
      "kind_free_text": "exhaustive loops over small string/integer domains executed on the real helpers, own recogniser as oracle"},
 ]
-FIX_COMMITS = ["e173e89", "69c9427", "3f819f3", "2ac9b91", "83ab516", "2982182", "b4341d3", "f68c828", "1e56e39", "8e8a574", "2622fd6", "9334850", "fd62f71", "1ea4c23", "c7c34d4", "dd26e59", "6b2a920", "698b0bb"]
+FIX_COMMITS = ["e173e89", "69c9427", "3f819f3", "2ac9b91", "83ab516", "2982182", "b4341d3", "f68c828", "1e56e39", "8e8a574", "2622fd6", "9334850", "fd62f71", "1ea4c23", "c7c34d4", "dd26e59", "6b2a920", "698b0bb", "7a9bdd4", "d847120"]
 NOT_APPLICABLE = {}
 CHECKS = {
+    "C09": {
+        "engine": "sweep-crypto", "level": "exploration", "design_ref": "DESIGN.md §10",
+        "technique": "bounded exhaustive enumeration: full product of key size x key/IV pattern x IV-default combination x every message length 0..80 (272 thorough) plus boundary lengths, all Counter increment sequences to depth 2/3, executed on the real wrappers and compared with independent pure-Python references",
+        "text": "Every wrapper of spsdk.crypto (AES-ECB/CBC/CTR/XTS/CCM, key wrap, SM4-CBC, hashes, HMAC, CMAC, HKDF, three CRCs, key-store and SB3.1 derivations, the CTR block counter) is executed over the complete product of the stated small dimensions and compared with references written from the standards (self-tested on FIPS-197, SP 800-38A/B/C, IEEE 1619, RFC 3394/3610/4493/5869, GB/T 32907 vectors); decrypt(encrypt(m)) is checked in all four IV-default combinations.",
+        "note": "Trusted: vf/ref/aes.py, crc.py, kdf.py (self-tested on published vectors at setup) and the RT5xx golden files used to calibrate the key-store constants; byte values outside the pattern alphabet and lengths above the bounds are not explored.",
+    },
     "C10": {
         "engine": "envdev+bfs-protocol", "level": "model_checking", "design_ref": "DESIGN.md §11",
         "technique": "explicit-state BFS over McuBoot and SDP operation sequences against a reference device model, plus exhaustive single-fault injection at every byte/report of the device-to-host stream, all executed on the real protocol stack under a virtual clock",
@@ -28,7 +36,7 @@ CHECKS = {
     },
     "C17": {
         "engine": "histories-fresh-interpreter", "level": "model_checking", "design_ref": "DESIGN.md §18",
-        "technique": "exhaustive enumeration of construction histories (all sequences with repetition over 11 artifact kinds, length <= 2 quick / <= 3 thorough), each run on the real code in a fresh interpreter under a counting random source; oracle on draw indices",
+        "technique": "exhaustive enumeration of construction histories (all sequences with repetition over 13 artifact kinds, length <= 2 quick / <= 3 thorough), each run on the real code in a fresh interpreter under a counting random source; oracle on draw indices",
         "text": "Every sequence of artifact constructions up to the bound is executed in its own interpreter with `secrets` replaced before import, under two generator seeds; a self-chosen field must be traceable to draws made during its own artifact's construction, no draw may feed two artifacts or appear in a foreign export, and values must change with the seed. Inside the bound this decides same-process sharing and import-time (cross-process-identical-by-construction) values.",
         "note": "Trusted: that spsdk.crypto.rng (secrets.*) is the only entropy source for these fields; OpenSSL-internal signature randomness is out of scope; histories longer than the bound are not explored.",
     },
